@@ -45,10 +45,17 @@ def gen_cases(tier, seed):
             o.update(include_screening=True, screening_tolerance=1e-3, max_iterations_per_step=200)
         cases.append({"device": dev, "options": o, "drive": {}, "regime": regime, "frac": float(rng.uniform(0.2, 0.9)), "steps": 150 if not scr else 40,
                       "cost": 20 if scr else 6})
-    nh = 4 if tier == "quick" else 24
+    for k in range(2 if tier == "quick" else 10):
+        # terminals PINNED at the uniform value itself (terminal_psi = 1): psi = 1 is still the stationary state
+        dev = zoo.gen_device(rng, n_terminals=[2, 3][k % 2], n_holes=0, probes=0, size="small", film_kind="box", smooth=int(rng.choice([0, 10])), gamma=float([1.0, 10.0, 0.0, 1.0][k % 4]), u=5.79)
+        o = dict(adaptive=bool(k % 2 == 0), dt_init=1e-6, save_every=20, field_units="mT", current_units="uA", output="file", terminal_psi=1.0, adaptive_window=int(rng.choice([2, 5])))  # (the default dt_init)
+        if k % 4 == 2:
+            o.update(include_screening=True, screening_tolerance=1e-3, max_iterations_per_step=200)
+        cases.append({"device": dev, "options": o, "drive": {}, "regime": "stable", "frac": float(rng.uniform(0.3, 0.9)), "steps": 120, "cost": 8})
+    nh = 6 if tier == "quick" else 30
     for k in range(nh):
         # histories: the undriven run is not the first thing that happens to the Device / SolverOptions object
-        hist = ["after_pinned_run", "options_reused"][k % 2]
+        hist = ["after_pinned_run", "options_reused", "seeded_fixed_step"][k % 3]
         nt = [2, 3][k % 2] if hist == "after_pinned_run" else int([0, 2][(k // 2) % 2])
         dev = zoo.gen_device(rng, n_terminals=nt, n_holes=0, probes=0, size="small", film_kind="box" if nt else None, smooth=int(rng.choice([0, 10])),
                              gamma=float([10.0, 1.0, 0.0][k % 3]))
@@ -100,6 +107,18 @@ def run_case(spec):
         if r0.refused or r0.exception is not None:
             return {"violations": [], "counters": {"refused_mesh": 1}, "classes": ["refused"], "nontrivial": False}
         r0.cleanup()
+    elif hist == "seeded_fixed_step":
+        # the undriven FIXED-step run is continued from a seed that an adaptive run left behind (its last step was dt_max)
+        pre = dict(sp)
+        pre["options"] = dict(o, adaptive=True, dt_init=min(1e-4, o["dt_max"] / 4), solve_time=40 * o["dt_max"])
+        r0 = sim.run_sim(pre, [], device=dev, keep_dir=True)
+        if r0.refused or r0.exception is not None or r0.solution is None:
+            return {"violations": [], "counters": {"refused_mesh": 1}, "classes": ["refused"], "nontrivial": False}
+        o["adaptive"] = False
+        o["dt_init"] = o["dt_max"] * 0.25
+        o["solve_time"] = spec["steps"] * o["dt_init"]
+        sp["options"] = o
+        run_kwargs["seed_solution"] = r0.solution
     elif hist == "options_reused":
         # ONE SolverOptions object: first a fixed-step run, then the user switches adaptivity on and runs again
         import dataclasses
